@@ -539,13 +539,7 @@ macro_rules! impl_signed {
 
             #[inline]
             fn signum(&self) -> Self {
-                if self.is_positive() {
-                    Self::one()
-                } else if self.is_zero() {
-                    Self::zero()
-                } else {
-                    -Self::one()
-                }
+                Self::from_re(self.re.signum())
             }
 
             #[inline]
